@@ -69,7 +69,7 @@ def main(argv):
         bad = 0
         for chk in man['checks']:
             p = chk['property_id']
-            ctx, _ = runner.run_rules(p, _opt(argv, '--config', 'rel'))
+            ctx, _ = runner.run_rules(p, _opt(argv, '--config', 'rel'), _opt(argv, '--repo', None))
             fails = [r for r in ctx.results if r['verdict'] == 'fail']
             print('%s: %d results, %d failing' % (p, len(ctx.results), len(fails)))
             for r in fails:
